@@ -269,3 +269,39 @@ func vfSymTrueI(c bool) bool {
 	}
 	return false
 }
+
+// ---- children bounds tile the parent's bound in longitude (exact arithmetic), every column ----
+// The column index is any 32-bit value below 2^z (symbolic), the row is concrete (its latitude
+// image is transcendental: the latitude side of "tile the bound" is not claimed).
+
+func vfC13ChildBounds_N(tier int) int     { return 30 }
+func vfC13ChildBounds_Label(c int) string { return fmt.Sprintf("z=%d", c) }
+
+func vfC13ChildBounds(c int) {
+	z := Zoom(c)
+	x := vfU32("x")
+	vfAssume(x < uint32(1)<<uint32(z))
+	t := Tile{X: x, Y: 0, Z: z}
+	pb := t.Bound()
+	ch := t.Children()
+	vfReach("child-bounds")
+	minx, maxx := ch[0].Bound().Min[0], ch[0].Bound().Max[0]
+	for i := 0; i < 4; i++ {
+		b := ch[i].Bound()
+		vfAssert("child-bound-inside-parent-lon", vfAnd(pb.Min[0] <= b.Min[0], b.Max[0] <= pb.Max[0]))
+		vfAssert("child-bound-half-width", 2*(b.Max[0]-b.Min[0]) == pb.Max[0]-pb.Min[0])
+		minx, maxx = vfMinF13(minx, b.Min[0]), vfMaxF13(maxx, b.Max[0])
+		// a child either starts at the parent's western edge or at its centre line
+		mid := (pb.Min[0] + pb.Max[0]) / 2
+		vfAssert("child-bound-aligned", vfOr(b.Min[0] == pb.Min[0], b.Min[0] == mid))
+	}
+	vfAssert("children-span-parent-lon", vfAnd(minx == pb.Min[0], maxx == pb.Max[0]))
+	// the centre's longitude maps back to the column
+	ct := t.Center()
+	vfAssert("centre-lon-is-mid", 2*ct[0] == pb.Min[0]+pb.Max[0])
+	back := At([2]float64{ct[0], 0}, z)
+	vfAssert("centre-maps-back-to-column", back.X == x)
+}
+
+func vfMinF13(a, b float64) float64 { return vfIteF(a < b, a, b) }
+func vfMaxF13(a, b float64) float64 { return vfIteF(a > b, a, b) }
